@@ -227,7 +227,8 @@ Fixpoint manhattanb (ps : list point) : bool :=
 
 (** The places where a label may be put on a polygon (property anchor "label placement inside the
     shape"): the centre of the bounding box (halves truncated toward zero) and the four unit
-    neighbours of the first vertex.  A polygon "has a label location" when one of them is inside. *)
+    neighbours of the first vertex.  A polygon "has a label location" when one of them is inside
+    (and all of them are representable in GDSII: the first vertex is not on the edge of the i32 range). *)
 Definition bbox_centre (ps : list point) : point :=
   let xs := map px ps in let ys := map py ps in
   let mn l := fold_right Z.min (hd 0 l) l in let mx l := fold_right Z.max (hd 0 l) l in
@@ -240,7 +241,7 @@ Definition label_candidates (ps : list point) : list point :=
   end.
 Definition has_label_locationb (s : shape) : bool :=
   match s with
-  | Polygon ps => existsb (in_region_shapeb s) (label_candidates ps)
+  | Polygon ps => forallb point_i32b (label_candidates ps) && existsb (in_region_shapeb s) (label_candidates ps)
   | _ => true
   end.
 
